@@ -1,0 +1,9 @@
+//go:build verif
+
+// Machine-checked contracts for package ifds (comment-only; read by /verif/bin/vcgo).
+package ifds
+
+// TagName only reads constant tables (its totality is part of C17); callers may treat it as side-effect free.
+//@ func IfdType.TagName
+//@   props C01 C17
+//@   pure
